@@ -11,7 +11,7 @@ import copy
 import re
 
 from verif import core
-from verif.tree import walk, show, stmt_list, strip, children, meth
+from verif.tree import plain_num, walk, show, stmt_list, strip, children, meth
 
 LEVEL = "translation_validation"
 UNIT = "opm/material/densead/Evaluation.cpp"
@@ -135,7 +135,6 @@ def render(s, N):
     t = t.replace("Opm::DenseAd::Evaluation::", "").replace("this.", "").replace("const ValueType", "ValueType")
     t = re.sub(r"\bEvaluation::(?=[a-z_])", "", t)
     t = re.sub(r"throw \((std::\w+)\).*$", r"throw \1(<message>)", t)
-    t = re.sub(r"\b(\d+)\.0\b", r"\1", t)
     return t
 
 
@@ -400,7 +399,7 @@ def run(chk):
                 args = [a_ for a_ in (c.get("a") or c.get("c") or []) if a_.get("k") != "DefArg"]
                 if c.get("k") in ("Ctor", "InitList", "Temp", "Call", "?CXXUnresolvedConstructExpr", "UCtor") or "Evaluation" in cl(show(c))[:12]:
                     a0 = pterm(f, args[0]) if args else None
-                    ok = a0 == sy_.S(first) and [ptext(f, a_) for a_ in args[1:]] == rest
+                    ok = a0 == sy_.S(first) and [plain_num(ptext(f, a_)) for a_ in args[1:]] == rest
             ds(key, f, ok, found, "return Evaluation(%s)" % ", ".join([first] + rest))
         elif key == "operator-() const":
             loops_ = [s_ for s_ in body if s_["k"] == "For"]
@@ -651,7 +650,7 @@ def run(chk):
                 if not (strip(a0).get("k") == "Ref" and strip(a0)["n"] == pn[0] and show(b0) in ("0", "0.0")):
                     continue
                 th, el = show(n["then"]), show(n.get("else")) if n.get("else") is not None else ""
-                ok0 = "(result = 0)" in th and "setDerivative" not in th and "setDerivative" in el
+                ok0 = "(result = 0)" in plain_num(th) and "setDerivative" not in th and "setDerivative" in el
             chk.instance(r_val, key + ":zero", sample=dict(function=f["q"], conditions=[show(n["cond"]) for n in ifs]))
             n_val += 1
             if not ok0:
